@@ -348,3 +348,32 @@ fn c06_fen_cover() {
     kani::cover!(matches!(r, Err(ParseFenError::TrailingBytes)));
     kani::cover!(matches!(r, Err(ParseFenError::InvalidEnpassant { .. })));
 }
+
+// ---------------------------------------------------------------- cost experiments (not registered)
+#[kani::proof]
+#[kani::unwind(30)]
+fn xp_ground() {
+    let r = parse_fen(b"k7/8/8/8/8/8/8/K7 w - - 0 1");
+    assert!(r.is_ok());
+}
+#[kani::proof]
+#[kani::unwind(30)]
+fn xp_last_digit() {
+    let mut s = *b"k7/8/8/8/8/8/8/K7 w - - 0 1";
+    s[26] = kani::any();
+    let r = parse_fen(&s);
+    assert!(r.is_ok() == s[26].is_ascii_digit());
+}
+#[kani::proof]
+#[kani::unwind(5)]
+fn xp_total_3() {
+    let buf: [u8; 3] = kani::any();
+    let s = any_slice(&buf);
+    assert!(parse_fen(s).is_err());
+}
+#[kani::proof]
+#[kani::unwind(6)]
+fn xp_total_4_exact() {
+    let buf: [u8; 4] = kani::any();
+    assert!(parse_fen(&buf).is_err());
+}
